@@ -255,7 +255,7 @@ def gen_poly(rng):
 
 def poly_input(spec):
     n = len(spec["comps"])
-    txt = [TRACER_DB, "SOLUTION 1\n pH 7 charge\n Na 1\n Cl 1\n -units mol/kgw\n Xa 0.6\n Xb 0.6\n Xc 0.6\n -water 1\nRATES\n"]
+    txt = [TRACER_DB, "SOLUTION 1\n pH 7 charge\n Na 1\n Cl 1\n -units mol/kgw\n Xa 5\n Xb 5\n Xc 5\n -water 1\nRATES\n"]
     for j in range(n):
         other = POLY_NAMES[(j + 1) % n]
         nm = POLY_NAMES[j]
